@@ -4,3 +4,5 @@ package verifsim
 
 func raceDisable() {}
 func raceEnable()  {}
+
+const watchdogScale = 1
